@@ -28,7 +28,8 @@ def main(path: str) -> None:
             if "hist" in c:
                 from harness import lib_history as lh
 
-                out.append(lh.run_case(c["prog"], c["hist"], c.get("ref")))
+                # (no never-built-twin comparison here: this process has no past at all)
+                out.append(lh.run_case(c["prog"], c["hist"], c.get("ref"), twin=bool(c.get("twin", False))))
                 continue
             env = lf.realize(c["prog"])
         except Exception as e:  # noqa: BLE001 - reported per case, judged by the parent
